@@ -418,8 +418,12 @@ func (d txDesc) tx() *types.Transaction {
 	return t
 }
 
-// a tiny contract: runtime increments slot 0 and emits LOG0(0,0)
-const runtimeCode = "600160005401600055" + "60006000a0" + "00"
+// a tiny contract: runtime increments slot 0, stores the block context the executor hands to the EVM
+// (TIMESTAMP, NUMBER, COINBASE, BLOCKHASH(NUMBER-1), GASPRICE, ORIGIN -> slots 1..6, so that any
+// replica-local value in the context reaches the state root) and emits LOG0(0,0)
+const runtimeCode = "600160005401600055" +
+	"42600155" + "43600255" + "41600355" + "6001430340600455" + "3a600555" + "32600655" +
+	"60006000a0" + "00"
 
 func initCode() string {
 	n := len(runtimeCode) / 2
@@ -458,7 +462,7 @@ func genBlock(r *hx.Rng) blockCase {
 	nonce := map[string]uint64{}
 	for i := 0; i < n; i++ {
 		var d txDesc
-		switch k := r.Intn(10); {
+		switch k := r.Intn(12); {
 		case k < 5: // transfer
 			c := genCA(r)
 			d = txDesc{Type: types.TransactionTypeOperatorEvent, Source: c.Source, ExtraData: c.Extra}
@@ -489,6 +493,17 @@ func genBlock(r *hx.Rng) blockCase {
 		case k == 8: // contract create
 			cd, _ := json.Marshal(types.ContractData{GasLimit: "3000000", TransferValue: "0", AbiData: "0x" + initCode()})
 			d = txDesc{Type: types.TransactionTypeContract, Source: addrHex(addr(1 + r.Intn(8))), Data: string(cd)}
+		case k == 10: // miner change account (source must be the miner's current account)
+			i := r.Intn(len(validatorIds))
+			to := addr(30 + r.Intn(3))
+			if r.Intn(4) == 0 {
+				to = addr(110 + r.Intn(len(validatorIds))) // occupied by another miner / no change
+			}
+			m := types.Miner{Id: validatorIds[i], Account: to.Bytes()}
+			md, _ := json.Marshal(m)
+			d = txDesc{Type: types.TransactionTypeMinerChangeAccount, Source: addrHex(addr(110 + i)), Data: string(md)}
+		case k == 11: // operator node (10 units fee, then create2 through the main node contract - absent here)
+			d = txDesc{Type: types.TransactionTypeOperatorNode, Source: addrHex(addr(110 + r.Intn(len(validatorIds))))}
 		default: // contract call
 			cd, _ := json.Marshal(types.ContractData{GasLimit: "1000000", TransferValue: []string{"0", "0.5"}[r.Intn(2)], AbiData: ""})
 			d = txDesc{Type: types.TransactionTypeContract, Source: addrHex(addr(1 + r.Intn(8))), Target: addrHex(deployed), Data: string(cd)}
@@ -792,7 +807,7 @@ func main() {
 			res.Sample(map[string]interface{}{"site": "block", "txs": len(bc.Txs), "types": tl, "root": outsL[0].Root, "receiptsTree": outsL[0].ReceiptsTree,
 				"receipts": trunc(outsL[0].Receipts), "evicted": outsL[0].Evicted, "distinctOutcomes": len(outs)})
 		}
-		for _, rc := range outsL[0].Receipts {
+		for j, rc := range outsL[0].Receipts {
 			p := strings.SplitN(rc, "|", 4)
 			if len(p) >= 3 {
 				st := "ok"
@@ -801,9 +816,10 @@ func main() {
 				} else if p[1] == "0" {
 					st = "failed"
 				}
-				res.Histogram["receipt:"+st]++
+				res.Histogram[fmt.Sprintf("receipt:type-%d:%s", outsL[0].TypesOf[j], st)]++
 			}
 		}
+		res.Histogram["evicted-txs"] += len(outsL[0].Evicted)
 	}
 
 	// ---- L3 sort ----
